@@ -323,6 +323,11 @@ func (s *Store[K, V]) GetWithSecodary(key K) (V, bool, error) {
 		// load and store should be atomic
 		shard.mu.Lock()
 		defer shard.mu.Unlock()
+		// Stop sharing this lookup before the shard lock is released, as the loading
+		// cache does: otherwise a caller that misses the map later - after a Delete
+		// of the key has completed - could still join the finished lookup and be
+		// handed the deleted value.
+		defer shard.vgroup.Forget(key)
 		// The key may have been stored since the lookup above missed: memory wins,
 		// the (older) secondary copy must not overwrite it.
 		if exist, ok := shard.get(key); ok {
